@@ -96,6 +96,10 @@ type res struct {
 	// NoSlash: its href is spelled without the trailing slash of the request.
 	Own     bool `json:"own,omitempty"`
 	NoSlash bool `json:"no_slash,omitempty"`
+	// Both: the response carries its (failing) Status and the propstats of
+	// Props as well; StatusLast: the status element comes after them.
+	Both       bool `json:"both,omitempty"`
+	StatusLast bool `json:"status_last,omitempty"`
 }
 
 type docSpec struct {
@@ -244,7 +248,8 @@ func (d *docSpec) tree() *xmltree.Node {
 			if d.Extra && failing(r.Status) {
 				resp.Desc = "resource failed"
 			}
-		} else {
+		}
+		if r.Status == 0 || r.Both {
 			// group by code in order of first appearance
 			var order []int
 			groups := map[int][]*xmltree.Node{}
@@ -272,7 +277,19 @@ func (d *docSpec) tree() *xmltree.Node {
 	if d.Extra {
 		ms.Desc = "generated by c14"
 	}
-	return davx.MultiStatusTree(ms, d.OnePer)
+	root := davx.MultiStatusTree(ms, d.OnePer)
+	for ri, rn := range root.Elems() {
+		if ri < len(d.Res) && d.Res[ri].Both && d.Res[ri].StatusLast {
+			// move the response's own status behind its propstats
+			for ci, ch := range rn.Children {
+				if ch.Kind == xmltree.Element && ch.Space == nsDAV && ch.Local == "status" {
+					rn.Children = append(append(rn.Children[:ci:ci], rn.Children[ci+1:]...), ch)
+					break
+				}
+			}
+		}
+	}
+	return root
 }
 
 // Offer is what one response offers: the neutral entry built from everything
